@@ -21,6 +21,9 @@ CHECKS = {
  "C15": dict(engine="mice", design="5/C15", technique="TLC exhaustive model checking of the MiDec machine under a chunk-supplying adversary with abstract (perfect-hash) crypto (tla/MC_Mice) + replay of exported adversarial behaviours on the real decoder + TLC trace validation with JDK SHA-256 (tla/Trace_Mice) of mutated honest streams",
    text="TLC checks Authenticated/CleanEof/RefusedEarly in every state of the decoder machine against an adversary choosing every chunk and the size field. Exported behaviours are concretised with real SHA-256 and replayed (verdict and delivered length must match); honest real streams under every truncation, bit flips, suffixes, swaps, size-field and digest edits are run on the real decoder and each Read sequence is judged by the machine, plus the direct invariant 'delivered is a prefix of the committed payload, clean EOF only after all of it'.",
    note="Trusted: TLC, JDK SHA-256, collision resistance idealised in the abstract model. Caller's limit < 2^31; reads stop at the first error."),
+ "C16": dict(engine="sh", design="5/C16", technique="TLC exhaustive enumeration with accepted-set exchange against reference parsers written from draft-09 section 4.2 (tla/MC_SH, tla/StructuredHeader.tla) + TLC trace validation of writer runs (tla/Trace_SH)",
+   text="Every string up to length 5 (quick) / 6 (thorough) over a 16-symbol grammar-relevant alphabet, plus longer families behind '*', 'a;' and '\"', is parsed by both TLA+ reference parsers; the real parsers must accept exactly the same strings with the same values; each accepted input is re-serialised and re-parsed by the real code; random valid and invalid values go through the real writer; every writer run is judged by the serialisation relation (parses back to the value, parameters sorted, invalid values refused).",
+   note="Trusted: TLC, tla/StructuredHeader.tla as transcription of draft-ietf-httpbis-header-structure-09 section 4 restricted to the implemented subset with four named deviations."),
 }
 
 def main():
@@ -34,6 +37,7 @@ def main():
          "engines": [
             {"name": "cbor", "path": "tla/Cbor.tla tla/CborMachines.tla tla/MC_Cbor*.tla tla/Trace_Cbor*.tla lib/cbor_checks.py harness/cmd/vh/cbor*.go", "serves_properties": ["C11", "C12", "C13"], "kind_free_text": "TLA+ spec + TLC (exhaustive + trace validation) + Go replay harness"},
             {"name": "mice", "path": "tla/MiceCore.tla tla/Mice.tla tla/MC_Mice.tla tla/Trace_Mice.tla tla/Crypto.tla tla/overrides lib/mice_checks.py harness/cmd/vh/mice*.go", "serves_properties": ["C14", "C15"], "kind_free_text": "TLA+ spec (abstract + concrete crypto instantiation) + TLC + Go replay harness"},
+            {"name": "sh", "path": "tla/StructuredHeader.tla tla/MC_SH.tla tla/Trace_SH.tla lib/sh_checks.py harness/cmd/vh/sh.go", "serves_properties": ["C16"], "kind_free_text": "TLA+ reference parsers + TLC + Go harness"},
          ],
          "checks": [], "notes": "See DESIGN.md. Exit 2 of a check means infrastructure failure, never a verdict.", "not_applicable": []}
     for i in ids:
